@@ -37,6 +37,7 @@ def dependents(g, target):
 def main():
     test = sys.argv[1]
     for it in range(200):
+        subprocess.run(["lake", "build"] + imports_of(test), cwd=LEAN, capture_output=True, text=True)      # stale object files would report the clash again
         r = subprocess.run(["lake", "env", "lean", test], cwd=LEAN, capture_output=True, text=True)
         out = r.stdout + r.stderr
         m = re.search(r"import ([\w.]+) failed, environment already contains '([^']+)' from ([\w.]+)", out)
@@ -44,6 +45,7 @@ def main():
             print("no more clashes; remaining output:", out[:400])
             return
         a, full, b = m.groups()
+        full = re.sub(r"(\.(match_\d+|_proof_\d+|_eq_\d+|eq_\d+|_unary|_mutual|_sunfold|splitter|congr_simp|_simp_\d+|proof_\d+))+$", "", full)      # auxiliary declarations: rename their parent
         ns, _, name = full.rpartition(".")
         g = graph()
         fam = [x for x in dependents(g, a) if ".Lemmas." in x or ".Props." in x]
@@ -62,7 +64,7 @@ def main():
             print("cannot resolve"); return
         mods = sorted(fam)
         b2 = subprocess.run(["lake", "build"] + mods, cwd=LEAN, capture_output=True, text=True)
-        if b2.returncode != 0:
+        if b2.returncode != 0 and "environment already contains" not in (b2.stdout + b2.stderr):
             print("build failed after renaming %s:\n%s" % (full, (b2.stdout + b2.stderr)[-1500:]))
             return
 
